@@ -1019,6 +1019,366 @@ def blas(ck):
                     "dsyrk/dsyr2k compared on the whole matrix (code leaves the non-uplo triangle untouched)")
 
 
+# ====================================================================== blas1 (fff_blas.c level 1: dot products, norms, ...)
+# Every finite double is a rational: the documented value of ddot / dnrm2 / dasum / idamax / daxpy / dscal / drot /
+# dswap / dcopy / drotg is evaluated exactly (Fractions here, Q in Coq: coq/C16/Blas1Model.v) for inputs of EVERY
+# magnitude class - ordinary, huge (squares overflow), tiny (squares underflow, denormal-free), mixed exponents -
+# in contiguous and strided layouts, through the C functions (ctypes on the rebuilt libcstat) and the Python wrappers.
+B1HDR = ("From Coq Require Import List ZArith QArith Qabs.\nFrom NV.C16 Require Import Blas1Model.\nImport ListNotations.\n")
+_B1_TOL = Fraction(1, 2 ** 46)        # relative tolerance on r^2 vs sum x_i^2 (the scaled kernel rounds a few ulp)
+_B1_BASE = [[3, 4], [-3, 4], [4, -3], [5], [-7], [0], [0, 0], [1, 2, 2], [2, -1, 2], [3, 4, 12], [12, 4, 3], [0, 3, 0, 4],
+            [2, 3, 6], [1, 4, 8], [4, 4, 7], [6, 6, 7], [1, 1, 1, 1], [8, 9, 12], [1, -1], [2, 0, 0, 0, 0, 0, 0, 0, 1],
+            [9, 9, 9, 9, 9, 9, 9, 9, 9], [1, 2, 3, 4, 5, 6, 7]]
+
+
+def _b1_q(f):
+    """dyadic rational -> `q2 m e` (m * 2^e): compact even at 2^+-1000 (decimal literals of that size parse slowly)"""
+    f = Fraction(f)
+    d = f.denominator
+    assert d & (d - 1) == 0, f
+    m, e = f.numerator, -(d.bit_length() - 1)
+    if m == 0:
+        return "(q2 0 0)"
+    while e >= 0 and m % 2 == 0:
+        m //= 2
+        e += 1
+    return "(q2 (%d) (%d))" % (m, e)
+
+
+def _b1_qlist(fr):
+    return "[" + "; ".join(_b1_q(f) for f in fr) + "]"
+
+
+def _b1_mag(fr):
+    """structural magnitude class of a vector of Fractions"""
+    nz = [abs(f) for f in fr if f != 0]
+    if not nz:
+        return "zero"
+    hi, lo = max(nz), min(nz)
+    tags = []
+    if hi > Fraction(2) ** 511:
+        tags.append("huge(squares-overflow)")
+    if lo < Fraction(1, 2 ** 511):
+        tags.append("tiny(squares-underflow)")
+    if hi / lo > 2 ** 40:
+        tags.append("mixed-exponents")
+    return "+".join(tags) if tags else "ordinary"
+
+
+def _b1_vectors(ck):
+    """list of (list of Fractions, description).  Entries are small integers times powers of two (exact doubles)."""
+    rng = ck.rng("blas1")
+    ks = [0, -1, 60, -60, 400, -400, 511, 512, -512, 600, -600, 900, -1000] if not ck.thorough() else \
+        [0, 1, -1, 30, 60, -60, 200, -200, 400, -400, 510, 511, 512, -511, -512, -537, 600, -600, 800, 900, 1000, -900, -1000, -1015]
+    base = [list(v) for v in _B1_BASE]
+    for _ in range(ck.n(10, 60)):
+        n = int(rng.integers(1, 10))
+        base.append([int(a) for a in rng.integers(-9, 10, n)])
+    out = []
+    for bi, v in enumerate(base):
+        for k in (ks if bi < 12 or ck.thorough() else [ks[(bi + j) % len(ks)] for j in range(4)]):
+            out.append(([Fraction(a) * Fraction(2) ** k for a in v], "ints*2^%d" % k))
+    # mixed exponents inside one vector
+    for j in range(ck.n(12, 80)):
+        n = int(rng.integers(2, 8))
+        k = int(rng.choice([0, 300, -300, 700, -700, 950, -950]))
+        es = rng.choice([0, -30, 20, -45, 7], n)
+        v = rng.integers(-9, 10, n)
+        out.append(([Fraction(int(a)) * Fraction(2) ** int(k + e) for a, e in zip(v, es)], "mixed 2^(%d+e)" % k))
+    return out
+
+
+def _b1_lib(ck):
+    lib = ctypes.CDLL(str(ck.ov["cstat"]))
+    V, D = ctypes.POINTER(_blas_FV), ctypes.c_double
+    PD = ctypes.POINTER(ctypes.c_double)
+    sig = {"ddot": ([V, V], D), "dnrm2": ([V], D), "dasum": ([V], D), "idamax": ([V], ctypes.c_size_t),
+           "dswap": ([V, V], ctypes.c_int), "dcopy": ([V, V], ctypes.c_int), "daxpy": ([D, V, V], ctypes.c_int),
+           "dscal": ([D, V], ctypes.c_int), "drot": ([V, V, D, D], ctypes.c_int), "drotg": ([PD, PD, PD, PD], ctypes.c_int)}
+    fns = {}
+    for r, (at, rt) in sig.items():
+        f = getattr(lib, "fff_blas_" + r)
+        f.argtypes = at
+        f.restype = rt
+        fns[r] = f
+    return fns
+
+
+class _B1Vec:
+    """fff_vector over a strided buffer; the gaps between the entries are NaN (a kernel that reads them shows it)."""
+
+    def __init__(self, vals, step):
+        n = len(vals)
+        self.mem = np.full(max(1, n * step) + 2, np.nan)
+        self.idx = [1 + i * step for i in range(n)]
+        for i, v in zip(self.idx, vals):
+            self.mem[i] = v
+        self.before = self.mem.copy()
+        self.fv = _blas_FV(n, step, ctypes.cast(self.mem.ctypes.data + 8, ctypes.POINTER(ctypes.c_double)), 0)
+
+    def vals(self):
+        return [float(self.mem[i]) for i in self.idx]
+
+    def gaps_untouched(self):
+        m = np.ones(len(self.mem), bool)
+        m[self.idx] = False
+        return bool(np.array_equal(self.mem[m], self.before[m], equal_nan=True))
+
+
+def _b1_run(case):
+    """executed in the guarded child: returns plain python values"""
+    fns, kind = case["fns"], case["kind"]
+    if kind == "c":
+        r = case["r"]
+        step = case["step"]
+        x = _B1Vec(case["x"], step)
+        y = _B1Vec(case["y"], case.get("stepy", step)) if "y" in case else None
+        if r in ("dnrm2", "dasum"):
+            return float(fns[r](ctypes.byref(x.fv)))
+        if r == "idamax":
+            return int(fns[r](ctypes.byref(x.fv)))
+        if r == "ddot":
+            return float(fns[r](ctypes.byref(x.fv), ctypes.byref(y.fv)))
+        if r in ("dswap", "dcopy"):
+            rc = fns[r](ctypes.byref(x.fv), ctypes.byref(y.fv))
+            return (rc, x.vals(), y.vals(), x.gaps_untouched() and y.gaps_untouched())
+        if r == "daxpy":
+            rc = fns[r](case["alpha"], ctypes.byref(x.fv), ctypes.byref(y.fv))
+            return (rc, x.vals(), y.vals(), x.gaps_untouched() and y.gaps_untouched())
+        if r == "dscal":
+            rc = fns[r](case["alpha"], ctypes.byref(x.fv))
+            return (rc, x.vals(), None, x.gaps_untouched())
+        if r == "drot":
+            rc = fns[r](ctypes.byref(x.fv), ctypes.byref(y.fv), case["c"], case["s"])
+            return (rc, x.vals(), y.vals(), x.gaps_untouched() and y.gaps_untouched())
+        if r == "drotg":
+            a, b, c, s = (ctypes.c_double(case["a"]), ctypes.c_double(case["b"]), ctypes.c_double(0), ctypes.c_double(0))
+            fns[r](ctypes.byref(a), ctypes.byref(b), ctypes.byref(c), ctypes.byref(s))
+            return (a.value, c.value, s.value)
+    else:
+        from nipy.labs.bindings import linalg as L
+        r = case["r"]
+        X = case["X"]
+        if r in ("dnrm2", "dasum"):
+            return float(getattr(L, "blas_" + r)(X))
+        if r == "ddot":
+            return float(L.blas_ddot(X, case["Y"]))
+        if r == "daxpy":
+            return np.asarray(L.blas_daxpy(case["alpha"], X, case["Y"])).tolist()
+        if r == "dscal":
+            return np.asarray(L.blas_dscal(case["alpha"], X)).tolist()
+    raise ValueError(case)
+
+
+def _b1_sqrt_ok(r, T, tol=_B1_TOL):
+    """r >= 0 and |r^2 - T| <= tol*T, exactly"""
+    if not math.isfinite(r) or r < 0:
+        return False
+    fr = frac(r)
+    return abs(fr * fr - T) <= tol * T
+
+
+def blas1(ck):
+    fns = _b1_lib(ck)
+    vecs = _b1_vectors(ck)
+    rng = ck.rng("blas1-pairs")
+    cases = []
+    DMAX = Fraction(2) ** 1023
+    DMIN = Fraction(1, 2 ** 1021)
+    for vi, (fr, desc) in enumerate(vecs):
+        xs = [float(f) for f in fr]
+        n = len(fr)
+        step = [1, 2, 3][vi % 3]
+        mag = _b1_mag(fr)
+        for r in ("dnrm2", "dasum", "idamax"):
+            cases.append({"kind": "c", "r": r, "x": xs, "fx": fr, "step": step, "mag": mag, "desc": desc})
+        # a partner with the same exponent pattern reversed, so that products stay representable
+        w = [int(a) for a in rng.integers(-9, 10, n)]
+        top = max([abs(f) for f in fr if f != 0] or [Fraction(1)])
+        ky = 0
+        while top * Fraction(2) ** ky > Fraction(2) ** 60:
+            ky -= 50
+        while top * Fraction(2) ** ky < Fraction(1, 2 ** 60):
+            ky += 50
+        fy = [Fraction(a) * Fraction(2) ** ky for a in w]
+        ys = [float(f) for f in fy]
+        cases.append({"kind": "c", "r": "ddot", "x": xs, "fx": fr, "y": ys, "fy": fy, "step": step, "stepy": [1, 3, 2][vi % 3],
+                      "mag": mag, "desc": desc})
+        # same-exponent partner for the vector-valued routines
+        fy2 = [f * Fraction(int(a) if f != 0 else 0) + (Fraction(int(a)) * top if f == 0 else 0) for f, a in zip(fr, rng.integers(-4, 5, n))]
+        ys2 = [float(f) for f in fy2]
+        alpha = float(rng.choice([2.0, -0.5, 3.0, 0.25, -1.0]))
+        if all(abs(f) * 8 < DMAX for f in fr + fy2) and "mixed" not in mag:
+            for r in ("dswap", "dcopy", "daxpy", "dscal", "drot"):
+                c = {"kind": "c", "r": r, "x": xs, "fx": fr, "y": ys2, "fy": fy2, "step": step, "stepy": [2, 1, 3][vi % 3],
+                     "alpha": alpha, "c": 0.75, "s": -0.5, "mag": mag, "desc": desc}
+                if r == "dscal":
+                    c.pop("y"); c.pop("fy")
+                cases.append(c)
+        if n == 2 and fr[0] != 0 or n == 2 and fr[1] != 0:
+            cases.append({"kind": "c", "r": "drotg", "a": xs[0], "b": xs[1], "fx": fr, "x": xs, "step": 1, "mag": mag, "desc": desc})
+        # Python wrappers on numpy views (positive steps; the reversed view is a separate class)
+        if vi % 2 == 0:
+            buf = np.full(3 * n + 3, np.nan)
+            buf[1:1 + step * n:step] = xs
+            X = buf[1:1 + step * n:step]
+            for r in ("dnrm2", "dasum"):
+                cases.append({"kind": "py", "r": r, "X": X, "fx": fr, "x": xs, "step": step, "mag": mag, "desc": desc, "layout": "step%d" % step})
+            bufy = np.full(2 * n + 2, np.nan)
+            bufy[0:2 * n:2] = ys
+            cases.append({"kind": "py", "r": "ddot", "X": X, "Y": bufy[0:2 * n:2], "fx": fr, "fy": fy, "x": xs, "y": ys, "step": step,
+                          "mag": mag, "desc": desc, "layout": "step%d,step2" % step})
+            if "mixed" not in mag and all(abs(f) * 8 < DMAX for f in fr + fy2):
+                by2 = np.full(2 * n + 2, np.nan)
+                by2[0:2 * n:2] = ys2
+                cases.append({"kind": "py", "r": "daxpy", "X": X, "Y": by2[0:2 * n:2], "alpha": alpha, "fx": fr, "fy": fy2, "x": xs, "y": ys2,
+                              "step": step, "mag": mag, "desc": desc, "layout": "step%d,step2" % step})
+                cases.append({"kind": "py", "r": "dscal", "X": X, "alpha": alpha, "fx": fr, "x": xs, "step": step, "mag": mag, "desc": desc,
+                              "layout": "step%d" % step})
+            if vi % 8 == 0 and n >= 2:
+                Xr = np.array(xs[::-1])[::-1]          # same values, negative stride
+                for r in ("dnrm2", "dasum"):
+                    cases.append({"kind": "py", "r": r, "X": Xr, "fx": fr, "x": xs, "step": -1, "mag": mag, "desc": desc, "layout": "reversed-view"})
+                cases.append({"kind": "py", "r": "ddot", "X": Xr, "Y": np.array(ys[::-1])[::-1], "fx": fr, "fy": fy, "x": xs, "y": ys, "step": -1,
+                              "mag": mag, "desc": desc, "layout": "reversed-view"})
+            if vi % 6 == 0 and all(f.denominator == 1 and abs(f) < 2 ** 20 for f in fr):
+                for dt in (np.int32, np.float32, np.int64):
+                    cases.append({"kind": "py", "r": "dnrm2", "X": np.array(xs).astype(dt), "fx": fr, "x": xs, "step": 1, "mag": mag,
+                                  "desc": desc, "layout": np.dtype(dt).name})
+    for c in cases:
+        c["fns"] = fns
+    res = run_guarded(_b1_run, cases)
+    terms, tmeta = [], []
+    nby = {}
+    for c, rr in zip(cases, res):
+        r = c["r"]
+        via = "C" if c["kind"] == "c" else "py"
+        lay = c.get("layout", "step%d" % c["step"])
+        rev = lay == "reversed-view"
+        sig = "blas1/negative-stride-view(fff_vector-stride-is-unsigned)" if rev else "blas1/%s/magnitude=%s" % (r, c["mag"])
+        replay = {"routine": ("fff_blas_%s (ctypes)" % r) if via == "C" else "nipy.labs.bindings.linalg.blas_%s" % r,
+                  "x": c["x"], "x_exact": [str(f) for f in c["fx"]], "layout": lay}
+        for k in ("y", "alpha", "c", "s"):
+            if k in c:
+                replay[k] = c[k]
+        ck.count(("b1", r, via, lay, tuple(c["x"]), tuple(c.get("y", ())), c.get("alpha")), nontrivial=True,
+                 bucket="blas1:%s:%s" % (r, c["mag"]))
+        nby[r] = nby.get(r, 0) + 1
+        if rr[0] != "ok":
+            ck.fail("blas1/%s/%s" % (r, rr[0] if rr[0] in ("hang", "crash") else "raises") + ("/reversed-view" if lay == "reversed-view" else ""),
+                    "%s: child %s %r" % (replay["routine"], rr[0], rr[1]), replay)
+            continue
+        out = rr[1]
+        replay["impl_output"] = out
+        fx = c["fx"]
+        X = _b1_qlist(fx)
+        if r == "dnrm2":
+            T = sum(f * f for f in fx)
+            if T == 0:
+                good = (out == 0.0)
+            else:
+                good = _b1_sqrt_ok(out, T)
+            if not good:
+                ck.fail(sig, "%s(x) = %r but sqrt(sum x_i^2) = %s*... (x = %s): |r^2 - sum x_i^2| > 2^-46 sum x_i^2" % (
+                    replay["routine"], out, "%.17g" % (float(T ** 1) ** 0.5) if T < DMAX else "sqrt(%d-bit number)" % T.numerator.bit_length(),
+                    c["x"]), replay)
+            if math.isfinite(out) and not rev:
+                terms.append("nrm2_closeb %s %s %s || (Qeq_bool (qsumsq %s) 0 && Qeq_bool %s 0)" % (X, _b1_q(frac(out)), _b1_q(_B1_TOL), X, _b1_q(frac(out))))
+                tmeta.append((sig, replay))
+        elif r == "dasum":
+            exp = sum(abs(f) for f in fx)
+            # exact for integer*2^k vectors; with mixed exponents the partial sums round: n ulp of sum |x_i|
+            bound = Fraction(len(fx), 2 ** 52) * exp if "mixed" in c["mag"] else Fraction(0)
+            if not (math.isfinite(out) and abs(frac(out) - exp) <= bound):
+                ck.fail(sig, "%s(x) = %r, sum |x_i| = %r" % (replay["routine"], out, float(exp)), replay)
+            if math.isfinite(out) and not rev:
+                terms.append("Qle_bool (Qabs (qasum %s - %s)) %s" % (X, _b1_q(frac(out)), _b1_q(bound)))
+                tmeta.append((sig, replay))
+        elif r == "idamax":
+            m = max(abs(f) for f in fx)
+            exp = [abs(f) for f in fx].index(m)
+            if out != exp:
+                ck.fail(sig, "fff_blas_idamax(x) = %r, first index of max |x_i| is %d" % (out, exp), replay)
+            if 0 <= out < 5000:
+                terms.append("Nat.eqb (iamax %s) %s" % (X, cnat(out)))
+                tmeta.append((sig, replay))
+        elif r == "ddot":
+            exp = sum(a * b for a, b in zip(fx, c["fy"]))
+            bound = Fraction(len(fx), 2 ** 52) * sum(abs(a * b) for a, b in zip(fx, c["fy"])) if "mixed" in c["mag"] else Fraction(0)
+            if not (math.isfinite(out) and abs(frac(out) - exp) <= bound):
+                ck.fail(sig, "%s(x, y) = %r, sum x_i y_i = %r" % (replay["routine"], out, float(exp)), replay)
+            if math.isfinite(out) and not rev:
+                terms.append("Qle_bool (Qabs (qdot %s %s - %s)) %s" % (X, _b1_qlist(c["fy"]), _b1_q(frac(out)), _b1_q(bound)))
+                tmeta.append((sig, replay))
+        elif r == "drotg":
+            rv, cv, sv = out
+            if not all(math.isfinite(v) for v in out):
+                ck.fail(sig, "fff_blas_drotg(a=%r, b=%r) returned non-finite (r, c, s) = %r" % (c["a"], c["b"], out), replay)
+                continue
+            terms.append("rotg_closeb %s %s %s %s %s %s" % (_b1_q(fx[0]), _b1_q(fx[1]), _b1_q(frac(cv)), _b1_q(frac(sv)), _b1_q(frac(rv)), _b1_q(Fraction(1, 2 ** 40))))
+            tmeta.append((sig, replay))
+            a, b, cf, sf, rf = fx[0], fx[1], frac(cv), frac(sv), frac(rv)
+            n2 = a * a + b * b
+            tol = Fraction(1, 2 ** 40)
+            if not (abs(cf * cf + sf * sf - 1) <= tol and abs(rf * rf - n2) <= tol * n2 and (cf * a + sf * b - rf) ** 2 <= tol * n2
+                    and (cf * b - sf * a) ** 2 <= tol * n2):
+                ck.fail(sig, "fff_blas_drotg(a=%r, b=%r) -> (r, c, s) = %r is not the Givens rotation of (a, b)" % (c["a"], c["b"], out), replay)
+        else:
+            # vector-valued routines
+            if via == "C":
+                rc, xo, yo, gaps = out
+                if not gaps:
+                    ck.fail("blas1/%s/writes-between-strided-entries" % r, "%s modified memory between the strided entries" % replay["routine"], replay)
+            else:
+                xo, yo = None, out
+                if r == "dscal":
+                    xo, yo = out, None
+            fy = c.get("fy")
+            al = frac(c["alpha"]) if "alpha" in c else None
+            if r == "dswap":
+                ex, ey = fy, fx
+            elif r == "dcopy":
+                ex, ey = fx, fx
+            elif r == "daxpy":
+                ex, ey = fx, [al * a + b for a, b in zip(fx, fy)]
+            elif r == "dscal":
+                ex, ey = [al * a for a in fx], None
+            else:
+                cc, ss = frac(c["c"]), frac(c["s"])
+                ex = [cc * a + ss * b for a, b in zip(fx, fy)]
+                ey = [cc * b - ss * a for a, b in zip(fx, fy)]
+            bad = False
+            for got, want in ((xo, ex), (yo, ey)):
+                if got is None or want is None:
+                    continue
+                if len(got) != len(want) or any((not math.isfinite(g)) or frac(g) != w for g, w in zip(got, want)):
+                    bad = True
+            if bad:
+                ck.fail(sig, "%s: x, y after the call = %r, %r; documented result %r, %r" % (
+                    replay["routine"], xo, yo, [float(f) for f in ex], None if ey is None else [float(f) for f in ey]), replay)
+            elif via == "C":
+                if r == "daxpy":
+                    terms.append("ql_eqb (axpy %s %s %s) %s" % (_b1_q(al), X, _b1_qlist(fy), _b1_qlist([frac(g) for g in yo])))
+                elif r == "dscal":
+                    terms.append("ql_eqb (scal %s %s) %s" % (_b1_q(al), X, _b1_qlist([frac(g) for g in xo])))
+                elif r == "drot":
+                    terms.append("qpl_eqb (rot %s %s %s %s) %s %s" % (_b1_q(frac(c["c"])), _b1_q(frac(c["s"])), X, _b1_qlist(fy),
+                                                                   _b1_qlist([frac(g) for g in xo]), _b1_qlist([frac(g) for g in yo])))
+                else:
+                    continue
+                tmeta.append((sig, replay))
+    ck.sample({"blas1": {"routine": "fff_blas_dnrm2", "x": [3 * 2.0 ** 600, 4 * 2.0 ** 600], "documented": 5 * 2.0 ** 600}})
+    if ck.build is not None and ck.build.ok and terms:
+        ok = ck.coq_bools(B1HDR, terms, shard=200, name="blas1")
+        ck.cov["traces_validated_against_impl"] += len(ok)
+        for good, (sig, replay) in zip(ok, tmeta):
+            if not good:
+                ck.fail(sig.replace("blas1/", "blas1/model-vs-impl/", 1),
+                        "the exact-rational model (Blas1Model.v) and %s disagree: %s" % (replay["routine"], replay.get("impl_output")), replay)
+    ck.section("blas1", vectors=len(vecs), calls=len(cases), per_routine=nby, model_terms=len(terms),
+               magnitude_classes=sorted(set(c["mag"] for c in cases)))
+
+
 # ====================================================================== spline (cubic_spline.c)
 # ---------------------------------------------------------------------------
 # C16 section "spline": cubic_spline.c  (basis, boundary/mirror index maps,
@@ -2180,6 +2540,21 @@ def _orc_int_array(rng, shape, dt, lo=0, hi=12):
     return rng.integers(info_lo, hi + 1, size=shape).astype(dt)
 
 
+_ORC_BIG = {np.uint32: [2 ** 31 + 7, 2 ** 32 - 30], np.int32: [2 ** 31 - 30, -(2 ** 31) + 12],
+            np.int64: [2 ** 31 + 7, 2 ** 40 + 3, -(2 ** 45) - 1, 2 ** 52 + 5, -(2 ** 31) - 9],
+            np.uint64: [2 ** 31 + 7, 2 ** 40 + 3, 2 ** 52 + 5]}
+
+
+def _orc_magnitudes(a, dt):
+    """(name, array): the small-integer array itself and, for the 32/64-bit integer dtypes, the same array shifted
+    to magnitudes at and beyond 2**31 (all below 2**53: exact as doubles, which is how fff carries them)."""
+    out = [("", a)]
+    for off in _ORC_BIG.get(dt, []):
+        out.append(("magnitude~2^%d%s" % (abs(off).bit_length() - (0 if abs(off) & (abs(off) - 1) else 1), "(negative)" if off < 0 else ""),
+                    (a.astype(object) + off).astype(dt)))
+    return out
+
+
 def _orc_bindings(ck, rng):
     from nipy.labs.bindings import wrapper as W
     from nipy.labs.bindings import array as A
@@ -2203,6 +2578,15 @@ def _orc_bindings(ck, rng):
         if not ok:
             rep = dict(rep)
             rep.update(got=g.tolist(), expected=r.tolist())
+            if g.shape == r.shape and g.dtype.kind in "iu" and r.dtype.kind in "iu":
+                # one cause, one signature: the integer setters of fff_array.c round through floor(a + 0.5), which is
+                # not representable for odd |a| >= 2**52 and lands on the even neighbour
+                go, ro = g.astype(object).ravel(), r.astype(object).ravel()
+                bad = [(a, b) for a, b in zip(go, ro) if a != b]
+                if bad and all(abs(a - b) in (1, 2) and abs(b) >= 2 ** 52 - 2 for a, b in bad):     # 2: rounded twice (copy, then add)
+                    ck.fail("oracle/bindings.fff_array.integer-setter/odd-values>=2^52-rounded-to-even",
+                            "%s: odd integers of magnitude >= 2**52 come back as their even neighbour (%r -> %r)" % (what, bad[0][1], bad[0][0]), rep)
+                    return
             if lay in ("", "C"):
                 c_failed.add(base)
                 ck.fail(base, "%s differs from numpy" % what, rep)
@@ -2297,14 +2681,15 @@ def _orc_bindings(ck, rng):
     for dt in _ORC_DTYPES:
         dn = np.dtype(dt).name
         for shape in [(1, 1), (1, 4), (3, 1), (2, 3), (4, 4)]:
-            a = _orc_int_array(rng, shape, dt)
+            a0 = _orc_int_array(rng, shape, dt)
             b = _orc_int_array(rng, shape, dt)
-            for lname, av in _orc_views(a):
+            for (magname, a), (lname, _) in itertools.product(_orc_magnitudes(a0, dt), _orc_views(a0)):
+                av = dict(_orc_views(a))[lname]
                 bv = dict(_orc_views(b))[lname]
                 rep = {"A": a.tolist(), "B": b.tolist(), "dtype": dn, "layout": lname}
                 ck.count(("bind-mat", dn, shape, lname, a.tobytes(), b.tobytes()), bucket="oracle:bindings.matrix:%s:%s" % (dn, lname))
                 af, bf = a.astype(float), b.astype(float)
-                pre = "oracle/bindings.%s/" + "%s|%s" % ("vector-shaped" if 1 in shape else "2d", lname)
+                pre = "oracle/bindings.%s/" + "%s%s|%s" % ("vector-shaped" if 1 in shape else "2d", "," + magname if magname else "", lname)
                 for name, f, ref in (("wrapper.pass_matrix", lambda: W.pass_matrix(av), af),
                                      ("linalg.matrix_transpose", lambda: L.matrix_transpose(av), af.T),
                                      ("linalg.matrix_add", lambda: L.matrix_add(av, bv), af + bf),
@@ -2320,18 +2705,22 @@ def _orc_bindings(ck, rng):
     for dt in _ORC_DTYPES:
         dn = np.dtype(dt).name
         for shape in shapes:
-            a = _orc_int_array(rng, shape, dt, hi=9)
-            b = _orc_int_array(rng, shape, dt, lo=1, hi=9)
-            b[b == 0] = 2
+            a0 = _orc_int_array(rng, shape, dt, hi=9)
+            b0 = _orc_int_array(rng, shape, dt, lo=1, hi=9)
+            b0[b0 == 0] = 2
             if np.issubdtype(dt, np.unsignedinteger):
-                a = (a + b).astype(dt)          # keep a - b >= 0
-            q = (a.astype(np.int64) * b.astype(np.int64)).astype(dt)    # q / b exact
-            for lname, av in _orc_views(a):
+                a0 = (a0 + b0).astype(dt)          # keep a - b >= 0
+            for (magname, a), (lname, _) in itertools.product(_orc_magnitudes(a0, dt), _orc_views(a0)):
+                if magname and len(shape) == 4 and not ck.thorough():
+                    continue
+                b = np.ones_like(b0) if magname else b0     # beyond 2**31: a+1, a-1, a*1, a/1 stay inside the dtype
+                q = (a.astype(object) * b.astype(object)).astype(dt)    # q / b exact
+                av = dict(_orc_views(a))[lname]
                 bv = dict(_orc_views(b))[lname]
                 qv = dict(_orc_views(q))[lname]
                 rep = {"A": a.tolist(), "B": b.tolist(), "dtype": dn, "layout": lname}
-                ck.count(("bind-arr", dn, shape, lname, a.tobytes(), b.tobytes()), bucket="oracle:bindings.array:%dd:%s" % (len(shape), lname))
-                pre = "oracle/bindings.%s/" + "%dd|%s" % (len(shape), lname)
+                ck.count(("bind-arr", dn, shape, lname, a.tobytes(), b.tobytes()), bucket="oracle:bindings.array:%dd:%s%s" % (len(shape), lname, ":" + magname if magname else ""))
+                pre = "oracle/bindings.%s/" + "%dd%s|%s" % (len(shape), "," + magname if magname else "", lname)
                 for name, f, ref in (("wrapper.pass_array", lambda: W.pass_array(av), a),
                                      ("array.array_add", lambda: A.array_add(av, bv), a + b),
                                      ("array.array_sub", lambda: A.array_sub(av, bv), a - b),
@@ -2352,8 +2741,9 @@ def _orc_bindings(ck, rng):
                     got = _orc_call(ck, (pre % "wrapper.copy_via_iterators").replace("|", ","), "copy_via_iterators", rep, W.copy_via_iterators, av, axis)
                     check((pre % "wrapper.copy_via_iterators").replace("|", ",axis=%d|" % axis), "copy_via_iterators(axis=%d)" % axis, got, af, dict(rep, axis=axis))
                     got = _orc_call(ck, (pre % "wrapper.sum_via_iterators").replace("|", ","), "sum_via_iterators", rep, W.sum_via_iterators, av, axis)
+                    # sums of entries near 2**52 exceed 2**53: not exact in double, compared at 1e-10
                     check((pre % "wrapper.sum_via_iterators").replace("|", ",axis=%d|" % axis), "sum_via_iterators(axis=%d)" % axis, got,
-                          af.sum(axis=axis, keepdims=True).squeeze(), dict(rep, axis=axis))
+                          af.sum(axis=axis, keepdims=True).squeeze(), dict(rep, axis=axis), exact="2^53" not in magname)
                     nfib = a.size // shape[axis]
                     for it in {0, nfib - 1, nfib // 2}:
                         got = _orc_call(ck, (pre % "wrapper.pass_vector_via_iterator").replace("|", ","), "pass_vector_via_iterator", rep,
@@ -2413,7 +2803,7 @@ def run(ck):
     ck.trust.append("ctypes call of the exported C symbol `quantile` in the rebuilt _quantile extension (argument marshalling in harness/props/c16.py)")
     ck.assume.append("sample values are integers of small magnitude (exactly representable doubles); NaN / inf inputs are outside the model")
     quantile_section(ck)
-    for name in ("blas", "spline", "oracles"):
+    for name in ("blas", "blas1", "spline", "oracles"):
         fn = globals().get(name)
         if fn is not None:
             _timed(ck, name, fn)
